@@ -5,6 +5,8 @@ CONSTANTS
   Layouts <- Lay4
   MaxOps = 3
   MaxStep = 3
+  Fills = {0, 7}
+  ValKinds = {"fresh", "zero"}
   Emit = TRUE
 INVARIANTS TypeOK
 PROPERTIES Stable BlockExact
